@@ -14,6 +14,13 @@ SumH(m, k) == IF k > Len(m.atoms) THEN 0 ELSE m.atoms[k].h + SumH(m, k + 1)
 TautomerMove(g, h) == /\ SumH(g, 1) = SumH(h, 1)
                       /\ \A k \in 1..Len(g.atoms) : g.atoms[k].h # h.atoms[k].h => g.atoms[k].z = 7
 Moved(r) == SameSkeleton(r.k0, r.a) /\ ~SameHydrogens(r.k0, r.a) /\ TautomerMove(r.k0, r.a)
+\* an aromatic spelling the library's model is known to share (no exocyclic double bond on an aromatic atom, no Se / Te / As, no
+\* unsaturated four-ring): every bond the text calls aromatic is aromatic again after kekule() and thiele()
+Ar(m) == { {m.bonds[k][1], m.bonds[k][2]} : k \in { k \in 1..Len(m.bonds) : m.bonds[k][3] = 4 } }
+ArAtoms(m) == UNION Ar(m)
+PlainAromaticSpelling(m) == /\ Ar(m) # {}
+                            /\ \A k \in 1..Len(m.bonds) : m.bonds[k][3] = 2 => {m.bonds[k][1], m.bonds[k][2]} \cap ArAtoms(m) = {}
+                            /\ \A x \in ArAtoms(m) : m.atoms[x].z \notin {33, 34, 52}
 Verdict(r) ==
   IF r.exc # "" THEN {"conversion-raised:" \o r.exc}
   ELSE
@@ -25,6 +32,7 @@ Verdict(r) ==
   \cup If(~LocalisedFormOf(r.k1, r.a) \/ ~SameHydrogens(r.k1, r.a), "kekulisation-changes-the-molecule")
   \cup If(~ValenceValid(r.k1), "kekule-form-with-valence-error")
   \cup If(r.rdh >= 0 /\ r.th # r.rdh, "kekule-form-has-other-hydrogens-than-the-text-denotes")
+  \cup If(Len(r.a0.atoms) = Len(r.a.atoms) /\ PlainAromaticSpelling(r.a0) /\ ~Unsaturated4Ring(r.a) /\ ~(Ar(r.a0) \subseteq Ar(r.a)), "aromatic-spelling-loses-aromatic-bonds")
   \cup If(~Unsaturated4Ring(r.a) /\ ~BenzeneRingsAromatic(r.k0, r.a), "benzene-ring-not-aromatised")
   \cup If(r.a2.bonds # r.a.bonds \/ ~SameHydrogens(r.a2, r.a), "thiele-not-idempotent")
   \cup If(r.k2.bonds # r.k0.bonds \/ ~SameHydrogens(r.k2, r.k0), "kekule-not-idempotent")
